@@ -12,6 +12,7 @@ queue, any number `c.ncb` of callbacks.
 bad schedules are kept as kernel-checked witnesses at the end of the file.
 -/
 import Proofs.Lemmas.Listener
+import Pywbem.Generated.ListenerThreads
 
 namespace C16
 open Pywbem.Model.Listener Pywbem.Proto Proofs.Listener
@@ -100,6 +101,53 @@ theorem C16_restartable (c : Cfg) (hc : c.proto = .fixed) (n : Nat) (s : Sys)
   obtain ⟨ht, hq, _, _⟩ := m
   simp [runTrace, step, stepStart, stepMain, hidle, hup, ht, hq, I.ctl.noErr]
 
+/-- **At most once, always.**  In every reachable state, every (callback, indication) pair occurs at
+    most once in the callback log: no callback is ever invoked twice for the same indication. -/
+theorem C16_at_most_once (c : Cfg) (hc : c.proto = .fixed) (n : Nat) (s : Sys)
+    (h : Reachable c n s) (k : Nat) (x : Ind) : s.log.count (k, x) ≤ 1 := by
+  have I := inv_reachable hc h
+  have hnd : (s.dlv ++ inflight s ++ s.queue).Nodup := by
+    rw [I.data.conserve]; exact perSender_nodup _ I.uniq.order
+  have hnd2 : (s.dlv ++ inflight s).Nodup := (List.nodup_append.mp hnd).1
+  have hcx : (s.dlv ++ inflight s).count x ≤ 1 := List.nodup_iff_count.mp hnd2 x
+  rw [I.data.logOk, List.count_append, count_expand]
+  rcases partialLog_calls c s with ⟨hi, hp⟩ | ⟨y, m, hi, hp⟩
+  · rw [hp]; rw [hi] at hcx; simp at hcx ⊢; split <;> omega
+  · rw [hp, count_calls]; rw [hi, List.count_append, List.count_singleton] at hcx
+    by_cases hxy : x = y
+    · subst hxy; simp at hcx; simp [hcx]; split <;> omega
+    · simp [hxy]; split <;> omega
+
+/-- **Exactly once when stopped.**  After stop() has returned, every acknowledged indication has been
+    passed to every registered callback exactly once, and nothing else has been passed to any callback. -/
+theorem C16_exactly_once_when_stopped (c : Cfg) (hc : c.proto = .fixed) (n : Nat) (s : Sys)
+    (h : Reachable c n s) (hidle : s.main = .idle) (hup : s.up = false) (k : Nat) (x : Ind) :
+    s.log.count (k, x) = if k < c.ncb ∧ x ∈ s.acked then 1 else 0 := by
+  obtain ⟨hlog, hack, _⟩ := C16_stop_returns_clean c hc n s h hidle hup
+  have U := uniq_reachable h
+  have hnd := perSender_nodup _ U.order
+  rw [hlog, count_expand]
+  by_cases hk : k < c.ncb
+  · by_cases hx : x ∈ s.enq
+    · have h1 : s.enq.count x ≤ 1 := List.nodup_iff_count.mp hnd x
+      have h2 : 0 < s.enq.count x := List.count_pos_iff.mpr hx
+      simp [hk, (hack x).mpr hx]; omega
+    · have : s.enq.count x = 0 := List.count_eq_zero.mpr hx
+      have hx' : x ∉ s.acked := fun ha => hx ((hack x).mp ha)
+      simp [hk, hx', this]
+  · simp [hk]
+
+/-- **stop() can always return.**  From every reachable state of the fixed protocol there is a
+    continuation schedule, without any further start() call, after which stop() has returned (and
+    then everything of `C16_stop_returns_clean` holds): no schedule can bring the listener into a
+    state from which stop() cannot complete (no deadlock between join(), server_close() and the
+    handler threads; the polling loops end once the queue is drained).  This is possibility under
+    some schedule; termination under every *fair* schedule is not claimed here. -/
+theorem C16_stop_can_always_return (c : Cfg) (hc : c.proto = .fixed) (n : Nat) (s : Sys)
+    (h : Reachable c n s) :
+    ∃ ls s', (∀ l ∈ ls, l ≠ .start) ∧ runTrace c ls s = some s' ∧ s'.main = .idle ∧ s'.up = false :=
+  can_stop hc (measure c s) s h (Nat.le_refl _)
+
 /-- **Acknowledged ⇒ enqueued.**  No indication is acknowledged with a success response without
     having been put into the queue (the "`_ind_queue is None` – ignoring indication" branch of
     `_handle_indication` is unreachable: stop() joins all handler threads before it touches the
@@ -165,6 +213,25 @@ example : ∃ s, Reachable { proto := .fixed, maxQ := 1, ncb := 1 } 2 s ∧ s.re
   let tr : List Label := [.start, .main, .main, .main, .snd 0, .snd 1, .snd 0, .snd 1, .snd 1]
   refine ⟨_, reachable_runTrace Reachable.init tr
     (s' := (runTrace { proto := .fixed, maxQ := 1, ncb := 1 } tr (init 2)).get (by decide)) (by simp), ?_⟩
+  decide
+
+/-- **The source has the structure the fixed protocol mirrors.**  Facts re-read from the text of
+    pywbem/_listener.py on every run (tools/extractors/listener_threads.py): stop() stops the listener
+    threads before the indication delivery; `_ind_queue = None` comes after `_callback_thread.join()`;
+    the callback loop does not read `self._ind_queue`; `put(block=False)`; no server class disables the
+    joining of handler threads in `server_close()` (the hypothesis behind the `tClose` guard, which the
+    correspondence run cannot observe because it replaces the server object); callbacks are called
+    inside `try/except Exception`; queue.Full is answered with CIM_ERR_FAILED (1); the get timeout is
+    positive.  An edit changing any of these breaks this theorem. -/
+theorem C16_source_structure :
+    Pywbem.Generated.ListenerThreads.stopOrder = ["_stop_listener_threads", "_stop_indication_delivery"] ∧
+    Pywbem.Generated.ListenerThreads.clearAfterJoin = true ∧
+    Pywbem.Generated.ListenerThreads.localQueueRef = true ∧
+    Pywbem.Generated.ListenerThreads.putNonBlocking = true ∧
+    Pywbem.Generated.ListenerThreads.handlerThreadsJoined = true ∧
+    Pywbem.Generated.ListenerThreads.callbackExceptionCaught = true ∧
+    Pywbem.Generated.ListenerThreads.queueFullStatus = 1 ∧
+    Pywbem.Generated.ListenerThreads.queueGetTimeoutPositive = true := by
   decide
 
 /-! ### the old protocol (code before the fix): kernel-checked bad schedules -/
